@@ -263,3 +263,88 @@ func checkALUParamsUsed(c *core.Ctx, alus []aluDesc) {
 		}
 	}
 }
+
+// DebugSharedHandlers lists handlers that are dispatched for more than one base mnemonic.
+func DebugSharedHandlers(c *core.Ctx) {
+	c.Load(emuPkg, cdna3Pkg, instsPkg)
+	c.BuildSSA()
+	t := LoadInstTables(c)
+	for _, a := range []aluDesc{{emuPkg, "ALUImpl"}, {cdna3Pkg, "ALU"}} {
+		p := c.Pkg(a.pkg)
+		disp, _ := dispatchersOf(c, a)
+		byHandler := map[string]map[string]bool{}
+		for _, format := range sortedKeys(disp) {
+			fd := findFuncDecl(p, a.typ+"."+disp[format])
+			if fd == nil {
+				continue
+			}
+			cases, _ := opcodeCases(p, fd)
+			for _, oc := range cases {
+				for _, cl := range oc.callees {
+					for _, op := range oc.values {
+						if r, ok := t.Lookup(format, op); ok {
+							if byHandler[cl] == nil {
+								byHandler[cl] = map[string]bool{}
+							}
+							byHandler[cl][baseMnemonic(r.Name)] = true
+						}
+					}
+				}
+			}
+		}
+		for _, h := range sortedKeys(byHandler) {
+			if len(byHandler[h]) > 1 {
+				fmt.Printf("%s.%s: %v\n", a.typ, h, sortedKeys(byHandler[h]))
+			}
+		}
+	}
+}
+
+// R03.25: one handler, one operand format.
+//
+// A handler that the dispatch switches reach for several mnemonics computes
+// one function; the mnemonics may differ only in what the function does not
+// depend on (signedness of an equality test, flags). Mnemonics whose operand
+// types have different widths (b32 / b64, u24 / u64) cannot share a handler:
+// the narrower one then computes on, or sets condition codes from, bits that
+// are not part of its operands.
+func checkSharedHandlers(c *core.Ctx, handlers []handlerRef) {
+	st := c.Rule("R03.25", "a handler that is dispatched for several mnemonics (decode table -> dispatch switch) serves only mnemonics whose operand types have the same widths: the type tokens [iubf](16|24|32|64) of all mnemonics of one handler agree position by position in width", 4)
+	typ := regexp.MustCompile(`_[iubf](16|24|32|64)`)
+	widths := func(name string) string {
+		var w []string
+		for _, m := range typ.FindAllStringSubmatch(baseMnemonic(name), -1) {
+			w = append(w, m[1])
+		}
+		return strings.Join(w, ",")
+	}
+	byHandler := map[string]map[string]string{}
+	order := []string{}
+	for _, h := range handlers {
+		k := h.alu.typ + "." + h.name
+		if byHandler[k] == nil {
+			byHandler[k] = map[string]string{}
+			order = append(order, k)
+		}
+		for _, n := range h.insts {
+			byHandler[k][baseMnemonic(n)] = widths(n)
+		}
+	}
+	for _, k := range order {
+		ms := byHandler[k]
+		if len(ms) < 2 {
+			continue
+		}
+		st.Instances++
+		ws := map[string]bool{}
+		for _, w := range ms {
+			ws[w] = true
+		}
+		ok := len(ws) == 1
+		st.Ob(ok)
+		st.Sample("%s serves %v", k, sortedKeys(ms))
+		if !ok {
+			c.Report(core.Finding{Rule: "R03.25", Pkg: emuPkg, Func: k, Detail: "shared-handler-widths:" + strings.Join(sortedKeys(ms), "+"), Msg: fmt.Sprintf("%s is dispatched for %v, whose operand widths differ (%v): the narrower instruction is computed with the wider one's operand reads and condition codes", k, sortedKeys(ms), ms)})
+		}
+	}
+}
